@@ -520,11 +520,13 @@ func (self Node) Field(id thrift.FieldID) (v Node) {
 	}
 	for it.HasNext() {
 		i, t, s, e := it.Next(UseNativeSkipForGet)
+		// NOTICE: look at the error first, a failed step reports id 0 - which may be the wanted one
+		if it.Err != nil {
+			v = errNode(meta.ErrRead, "", it.Err)
+			goto ret
+		}
 		if i == id {
 			v = self.slice(s, e, t)
-			goto ret
-		} else if it.Err != nil {
-			v = errNode(meta.ErrRead, "", it.Err)
 			goto ret
 		}
 	}
